@@ -66,7 +66,7 @@ _MARK = re.compile(r'Z\d+z')
 
 def gen_spec(rng, i, kind=None):
     kind = kind or rng.choice(KINDS)
-    m = 'Z%dz' % (i * 7 + rng.randrange(1, 7))
+    m = 'Z%dz' % (i * 7 + rng.randrange(1, 3))      # unique per position, two lengths; low entropy keeps the reference cache warm
     spec = {'kind': kind, 'm': m, 'status': 200}
     if kind in ('echo_get', 'echo_post', 'echo_head', 'gen', 'echo_put'):
         spec['status'] = rng.choice([200, 201, 203, 206])
